@@ -232,8 +232,9 @@ func (rule *RuleShellcheck) runShellcheck(src, shell string, pos *Pos) {
 		for _, err := range errs {
 			// Consider the first line is setup for running shell which was implicitly added for better check
 			line := err.Line - 1
-			msg := strings.TrimSuffix(err.Message, ".") // Trim period aligning style of error message
-			rule.Errorf(pos, "shellcheck reported issue in this script: SC%d:%s:%d:%d: %s", err.Code, err.Level, line, err.Column, msg)
+			// Message echoes characters in the script. Line breaks must be replaced since the message must be in one line
+			msg := strings.TrimSuffix(replaceLineBreaks(err.Message), ".") // Trim period aligning style of error message
+			rule.Errorf(pos, "shellcheck reported issue in this script: SC%d:%s:%d:%d: %s", err.Code, replaceLineBreaks(err.Level), line, err.Column, msg)
 		}
 
 		return nil
